@@ -4,6 +4,7 @@ import LemoModel.EvmTable
 import LemoModel.ModExp
 import LemoModel.EvmGas
 import LemoModel.JumpAnalysis
+import LemoModel.MemRange
 namespace Driver.C16
 open LemoModel LemoModel.Evm Driver
 
@@ -156,6 +157,101 @@ def toHex (l : List UInt8) : String :=
 def hexOrPanic : Option (List UInt8) → String
   | some l => toHex l
   | none => "panic"
+
+/-! the memory-range ops `mra` / `mrg` / `mrs` / `mrx` (model LemoModel.MemRange) -/
+
+def renderAccess : MemRange.Access → String
+  | .get off (.slot z) => s!"Get(s{off}.Int64(),s{z}.Int64())"
+  | .get off (.const n) => s!"Get(s{off}.Int64(),{n})"
+  | .getPtr off (.slot z) => s!"GetPtr(s{off}.Int64(),s{z}.Int64())"
+  | .getPtr off (.const n) => s!"GetPtr(s{off}.Int64(),{n})"
+  | .set off (.slot z) => s!"Set(s{off}.Uint64(),s{z}.Uint64(),_)"
+  | .set off (.const n) => s!"Set(s{off}.Uint64(),{n},_)"
+  | .store8 off => s!"store[s{off}.Int64()]"
+  | .len => "Len()"
+
+def stackWords? (s : String) : Option (List Nat) :=
+  if s == "-" then some [] else (s.splitOn ",").mapM (·.toNat?)
+
+def stripZeros : List UInt8 → List UInt8
+  | 0 :: t => stripZeros t
+  | l => l
+
+def isCallOp (op : Nat) : Bool := op == 0xf1 || op == 0xf2 || op == 0xf4 || op == 0xfa
+
+/-- what the harness can observe of the bytes the body read: MLOAD pushes them as an integer, the
+    call family hands them to the identity precompile and returns its output -/
+def showRead (op : Nat) (env : MemRange.Env) (r : List UInt8) : String :=
+  if op == 0x51 then toHex (stripZeros r)
+  else if isCallOp op then toHex ((env.callRet r).getD [])
+  else toHex r
+
+def renderSizeExpr : MemRange.SizeExpr → String
+  | .calc off (.slot z) => s!"calcMemSize(stack.Back({off}),stack.Back({z}))"
+  | .calc off (.const n) => s!"calcMemSize(stack.Back({off}),big.NewInt({n}))"
+  | .max a b => s!"math.BigMax({renderSizeExpr a},{renderSizeExpr b})"
+
+def memStep (w : List String) : Option String :=
+  match w with
+  | ["mrt", name] =>
+    some (match MemRange.memSpec name with
+      | some e => renderSizeExpr e
+      | none => "unknown-function")
+  | ["mra", op, _exec] =>
+    op.toNat?.map fun op =>
+      let mem := match MemRange.memFn op with
+        | some f => f.name
+        | none => "-"
+      let calls := (MemRange.bodyAccesses op).map renderAccess
+      let cs := if calls.isEmpty then "-" else ";".intercalate calls
+      s!"mem={mem} calls={cs}"
+  | ["mrg", op, ms] =>
+    match op.toNat?, ms.toNat? with
+    | some op, some ms =>
+      -- all-zero stack, empty memory: the constant part of the row + memoryGasCost in uint64 arithmetic
+      some (match (MemRange.memFn op).isSome, MemRange.memoryGasCost64 T.params.memoryGas T.params.quadCoeffDiv ms with
+        | true, some fee => s!"ok cost={(T.info op).minGas + fee}"
+        | _, _ => "err")
+    | _, _ => none
+  | ["mrs", op, gas, ws] =>
+    match op.toNat?, gas.toNat?, stackWords? ws with
+    | some op, some gas, some st =>
+      let msz := match MemRange.memFn op with
+        | some f => toString (f.fn st)
+        | none => "-"
+      let v := match MemRange.stage op st with
+        | .overflow => "ovf"
+        | .refused => "oog"
+        | .ok ms => if EvmGas.memFee T.params (ms / 32) > gas then "oog" else s!"ok mem={ms}"
+      some s!"msz={msz} {v}"
+    | _, _, _ => none
+  | ["mrx", mode, op, ws, buf, len, input, code, ext, ret] =>
+    match op.toNat?, stackWords? ws, hex? buf, len.toNat? with
+    | some op, some st, some buf, some len =>
+      match hex? input, hex? code, hex? ext, hex? ret with
+      | some input, some code, some ext, some ret =>
+        -- the callee is the identity precompile; a CALL / CALLCODE with value fails (the contract owns nothing)
+        let failing : Bool := (op == 0xf1 || op == 0xf2) && MemRange.back st 2 != 0
+        let callee : List UInt8 → Option (List UInt8) := fun args => if failing then none else some args
+        let env : MemRange.Env := { input := input, code := code, extCode := some ext, retData := ret, callRet := callee }
+        -- glue: the harness only emits mode-r lines whose REAL memorySize is at most 8 KiB; if the model asks for
+        -- more (the two disagree) it answers with the size instead of building a list of that length
+        let big : Option Nat := match MemRange.stage op st with
+          | .ok ms => if ms > 65536 then some ms else none
+          | _ => none
+        if mode == "r" && big.isSome then some s!"model-resizes-to={big.getD 0}"
+        else if mode == "r" then
+          some (match MemRange.step op st env ⟨buf, len⟩ with
+            | .done m r => s!"len={m.len} vis={toHex m.visible} read={showRead op env r}"
+            | .panic => "panic"
+            | .stopped _ => "stopped")
+        else
+          some (match MemRange.exec op st env ⟨buf, len⟩ with
+            | some (m, r) => s!"len={m.len} buf={toHex m.buf} read={showRead op env r}"
+            | none => "panic")
+      | _, _, _, _ => none
+    | _, _, _, _ => none
+  | _ => none
 
 def step (s : St) (w : List String) : St × String :=
   match w with
@@ -321,6 +417,6 @@ def step (s : St) (w : List String) : St × String :=
     | some (r, g), [] =>
       ({ s with m := Machine.init, mem := [] }, s!"{resName r} {g} {s.m.journal.length} {showRle (s.m.journal.map (entryType T.params))}")
     | _, _ => ({ s with m := Machine.init, mem := [] }, s!"not-finished depth={s.m.frames.length}")
-  | _ => (s, "bad-op")
+  | _ => (s, (memStep w).getD "bad-op")
 
 end Driver.C16
